@@ -140,6 +140,11 @@ func elemCallName(c *ssa.CallCommon) (string, ssa.Value) {
 				}
 			case *ssa.FreeVar:
 				return "elem:" + r.Name(), ia.Index
+			case *ssa.FieldAddr:
+				// x.fs[i](...) where fs is a struct field holding a slice of functions
+				if n := fieldName(r); n != "" {
+					return "elem:" + n, ia.Index
+				}
 			}
 		}
 	case *ssa.Parameter:
